@@ -17,6 +17,40 @@ import ast
 from .model import fn_label
 
 FRESH = ("<fresh>",)
+IN = "<in>"      # trailing selector: "a fresh container whose *contents* may alias this path" ([self.id, x], list(xs), zip(...))
+
+
+def elem(p):
+    """Path of an element of the value with path p."""
+    if p == FRESH:
+        return p
+    if p[-1] == IN:
+        return p[:-1]
+    return p + ("[]",)
+
+
+def contents(p):
+    """Path of a fresh container holding the value with path p."""
+    if p == FRESH:
+        return p
+    return p if p[-1] == IN else p + (IN,)
+
+
+def extend(q, sels):
+    """Append selectors to path q, resolving the contents marker."""
+    for sel in sels:
+        if q == FRESH:
+            return FRESH
+        if q[-1] == IN:
+            if sel == "[]":
+                q = q[:-1]
+            elif sel == IN:
+                pass
+            else:
+                return FRESH       # an attribute of the fresh container itself
+        else:
+            q = q + (sel,)
+    return q
 
 VIEW_FUNCS = {"transpose", "asarray", "asanyarray", "atleast_1d", "atleast_2d", "ravel", "reshape", "squeeze", "swapaxes",
               "ascontiguousarray", "real", "diagonal", "broadcast_to", "expand_dims", "moveaxis"}
@@ -114,10 +148,10 @@ class FunctionFacts:
                     return p
                 if in_pose and p[0] in self.params and all(s_ == "[]" for s_ in p[1:]):
                     return FRESH      # unpacking a (slice of a) 1-D pose array yields immutable scalars
-                return p + ("[]",)
-            elem = {elem_of(p) for p in paths}
+                return elem(p)
+            elems = {elem_of(p) for p in paths}
             for t in target.elts:
-                self._bind(t.value if isinstance(t, ast.Starred) else t, elem)
+                self._bind(t.value if isinstance(t, ast.Starred) else t, elems)
 
     def _bind_all(self):
         for node in self._walk(self.fn):
@@ -132,7 +166,7 @@ class FunctionFacts:
                 self._bind(node.target, self.paths(node.target) | {FRESH})
             elif isinstance(node, (ast.For, ast.comprehension)):
                 it = self.paths(node.iter)
-                self._bind(node.target, {p + ("[]",) if not is_fresh(p) else p for p in it})
+                self._bind(node.target, {elem(p) for p in it})
             elif isinstance(node, ast.With):
                 for item in node.items:
                     if item.optional_vars is not None:
@@ -163,7 +197,7 @@ class FunctionFacts:
             out = set()
             for p in base:
                 # attributes of fresh objects stay fresh; properties of pose classes are resolved through their summaries
-                out.add(FRESH if is_fresh(p) else p + ("." + e.attr,))
+                out.add(FRESH if (is_fresh(p) or p[-1] == IN) else p + ("." + e.attr,))
             # a property of a package class: use its return summary when every definition is fresh
             props = [ci.props[e.attr] for ci in self.pkg.classes.values() if e.attr in ci.props]
             if props and all(self.an.returns_fresh(f) for f in props):
@@ -175,7 +209,9 @@ class FunctionFacts:
                     and e.value.id not in self.env and not isinstance(e.slice, (ast.Slice, ast.Tuple)):
                 return {FRESH}  # a single element of a 1-D pose array is an immutable scalar
             base = self.paths(e.value)
-            return {FRESH if is_fresh(p) else p + ("[]",) for p in base}
+            if isinstance(e.slice, ast.Slice):
+                return {p if (is_fresh(p) or p[-1] == IN) else p + ("[]",) for p in base}    # a slice of a list is a new list of the same contents
+            return {elem(p) for p in base}
         if isinstance(e, ast.Starred):
             return self.paths(e.value)
         if isinstance(e, ast.IfExp):
@@ -190,17 +226,20 @@ class FunctionFacts:
         if isinstance(e, (ast.List, ast.Tuple, ast.Set)):
             out = {FRESH}
             for x in e.elts:
-                out |= {p for p in self.paths(x) if not is_fresh(p)}
+                if isinstance(x, ast.Starred):
+                    out |= {contents(elem(p)) for p in self.paths(x.value) if not is_fresh(p)}
+                else:
+                    out |= {contents(p) for p in self.paths(x) if not is_fresh(p)}
             return out
         if isinstance(e, (ast.ListComp, ast.SetComp, ast.GeneratorExp)):
-            return {FRESH} | {p for p in self.paths(e.elt) if not is_fresh(p)}
+            return {FRESH} | {contents(p) for p in self.paths(e.elt) if not is_fresh(p)}
         if isinstance(e, ast.DictComp):
-            return {FRESH} | {p for p in self.paths(e.value) if not is_fresh(p)}
+            return {FRESH} | {contents(p) for p in self.paths(e.value) if not is_fresh(p)}
         if isinstance(e, ast.Dict):
             out = {FRESH}
             for x in e.values:
                 if x is not None:
-                    out |= {p for p in self.paths(x) if not is_fresh(p)}
+                    out |= {contents(p) for p in self.paths(x) if not is_fresh(p)}
             return out
         if isinstance(e, ast.Call):
             return self.call_paths(e)
@@ -233,13 +272,16 @@ class FunctionFacts:
                 out = set()
                 for callee, bound in tgt:
                     out |= self.an.map_returns_args(callee, [self.paths(c.args[2]) if len(c.args) > 2 else {FRESH},
-                                                             {p + ("[]",) if not is_fresh(p) else p for p in self.paths(c.args[1])}])
+                                                             {elem(p) for p in self.paths(c.args[1])}])
                 return out or {FRESH}
-            if f.id in ("iter", "reversed", "sorted", "list", "tuple", "zip", "enumerate", "next", "dict", "set", "frozenset", "filter", "map"):
+            if f.id == "next" and c.args:
+                return {elem(p) for p in self.paths(c.args[0])} | ({p for p in self.paths(c.args[1])} if len(c.args) > 1 else set())
+            if f.id in ("iter", "reversed", "sorted", "list", "tuple", "zip", "enumerate", "dict", "set", "frozenset", "filter", "map"):
+                # a new container / iterator over the elements of the arguments
                 out = {FRESH}
-                for a in c.args:
-                    out |= {p + ("[]",) for p in self.paths(a) if not is_fresh(p)} if f.id in ("zip", "enumerate") else \
-                           {p for p in self.paths(a) if not is_fresh(p)}
+                args = c.args[1:] if f.id in ("filter", "map") else c.args
+                for a in args:
+                    out |= {contents(elem(p)) for p in self.paths(a) if not is_fresh(p)}
                 return out
         return {FRESH}
 
@@ -269,15 +311,15 @@ class FunctionFacts:
             return
         if isinstance(t, ast.Attribute):
             for p in self.paths(t.value):
-                if not is_fresh(p):
+                if not is_fresh(p) and p[-1] != IN:
                     self.events.append(Event("AttrStore", p + ("." + t.attr,), node, self.fn, op, val))
         elif isinstance(t, ast.Subscript):
             for p in self.paths(t.value):
-                if not is_fresh(p):
+                if not is_fresh(p) and p[-1] != IN:
                     self.events.append(Event("ElemStore", p + ("[]",), node, self.fn, op, val))
         elif isinstance(t, ast.Name) and op not in ("=", "del"):
             for p in self.paths(t):
-                if not is_fresh(p):
+                if not is_fresh(p) and p[-1] != IN:
                     self.events.append(Event("AugName", p, node, self.fn, op, val))
 
     def _call_event(self, c):
@@ -285,22 +327,22 @@ class FunctionFacts:
         if isinstance(f, ast.Attribute):
             if f.attr in MUTATOR_METHODS and not self.an.resolve(c, self):
                 for p in self.paths(f.value):
-                    if not is_fresh(p) and not p[0].startswith("<global:"):
+                    if not is_fresh(p) and not p[0].startswith("<global:") and p[-1] != IN:
                         self.events.append(Event("MutCall", p, c, self.fn, f.attr))
             if isinstance(f.value, ast.Name) and f.value.id in ("np", "numpy") and f.attr in NP_INPLACE_FUNCS and c.args:
                 for p in self.paths(c.args[0]):
-                    if not is_fresh(p):
+                    if not is_fresh(p) and p[-1] != IN:
                         self.events.append(Event("MutCall", p, c, self.fn, "np." + f.attr))
             # np.add.at(x, idx, v) and friends
             if f.attr == "at" and isinstance(f.value, ast.Attribute) and isinstance(f.value.value, ast.Name) and \
                     f.value.value.id in ("np", "numpy") and c.args:
                 for p in self.paths(c.args[0]):
-                    if not is_fresh(p):
+                    if not is_fresh(p) and p[-1] != IN:
                         self.events.append(Event("MutCall", p, c, self.fn, "np.%s.at" % f.value.attr))
         for k in c.keywords:
             if k.arg == "out":
                 for p in self.paths(k.value):
-                    if not is_fresh(p):
+                    if not is_fresh(p) and p[-1] != IN:
                         self.events.append(Event("MutCall", p, c, self.fn, "out="))
         callees = self.an.resolve(c, self)
         if callees:
@@ -505,7 +547,7 @@ class Analysis:
                 out.add(FRESH)
             elif p[0] in m:
                 for q in m[p[0]]:
-                    out.add(FRESH if is_fresh(q) else q + p[1:])
+                    out.add(FRESH if is_fresh(q) else extend(q, p[1:]))
             else:
                 out.add(p)
         return out
@@ -529,7 +571,7 @@ class Analysis:
                 if isinstance(binding, tuple) and binding[0] == "reduce":
                     cf = self.get(callee)
                     argsets = [facts.paths(c.args[2]) if len(c.args) > 2 else {FRESH},
-                               {p + ("[]",) if not is_fresh(p) else p for p in facts.paths(c.args[1])}]
+                               {elem(p) for p in facts.paths(c.args[1])}]
                     # the accumulator is also whatever the function returns
                     argsets[0] = argsets[0] | self.map_returns_args(callee, argsets)
                     m = {p: s for p, s in zip(cf.params, argsets)} if cf else {}
@@ -537,7 +579,7 @@ class Analysis:
                     m = self.arg_paths(callee, binding, c, facts)
                 for ev in self.effects(callee, _stack + [fn]):
                     for p in self._subst({ev.path}, m):
-                        if not is_fresh(p):
+                        if not is_fresh(p) and p[-1] != IN:
                             out.append(Event(ev.kind, p, ev.node, ev.fn, ev.op, ev.value,
                                              via=[fn_label(fn)] + (ev.via or [fn_label(ev.fn)])))
         if not _stack:
@@ -557,7 +599,7 @@ def _dotted(e):
 def touches_protected(path):
     """Is the written location a protected attribute itself or an element of the array it holds
     (x.pose, x.pose[], x.information[][]) -- not some other object merely reached through one (x.pose._cache)?"""
-    sels = list(path[1:])
+    sels = [x for x in path[1:] if x != IN]
     while sels and sels[-1] == "[]":
         sels.pop()
     return bool(sels) and sels[-1].startswith(".") and sels[-1][1:] in PROTECTED_ATTRS
